@@ -8,7 +8,14 @@ State (the fields of `Conn` the calls look at):
     will do the one time it runs (the handshake itself is other properties' subject);
   * `rx` — the receiving record layer of `Model/RecordRx` (`in.err`, `c.input`, `retryCount`, …);
   * `outErr` (`out.err`), `cnSent` / `cnErr` (`closeNotifySent` / `closeNotifyErr`);
-  * `closedBit` (low bit of `activeCall`; calls are sequential here, so the Write count is 0);
+  * `closedBit` (low bit of `activeCall`) and `inflight` (the rest of `activeCall`: a `Write` that has
+    passed every test of `Conn.Write`, holds `c.out` and sits in the transport write — the one
+    concurrent situation the model covers, because `Close` is documented to be callable then:
+    "this Close is really just being used to break the Write").  While it is set, calls that need
+    `c.out` and whose result depends on how that Write ends do not return (`wouldBlock`: another
+    `Write`, `CloseWrite`); `Close` only closes the transport; `writeEnd` is the transport write
+    returning.  One approximation: a `Read` that has to SEND an alert would wait for `c.out` too —
+    here it proceeds (the driver never runs such a history; waiting on mutexes is C13's subject);
   * `localClosed` — `c.conn.Close()` has been called: every later transport read or write fails
     with `net.ErrClosed`;
   * `queue` — what the transport will hand to this side, in order: whole records of the peer
@@ -105,6 +112,9 @@ structure Conn where
   seg : Seg := .record
   /-- number of leading items of `queue` whose bytes `c.rawInput` already holds -/
   raw : Nat := 0
+  /-- payload of the `Write` that is inside the transport write right now (`activeCall ≥ 2`): it got
+      past the interlock, `Handshake()`, `c.out.err`, `closeNotifySent`, and holds `c.out` -/
+  inflight : Option Bytes := none
 deriving Repr, DecidableEq
 
 inductive Call
@@ -118,6 +128,13 @@ inductive Call
   -- transport events
   | arrive (it : InItem)
   | setWFail (w : WFail)
+  -- a `Write` on another goroutine, cut in two at the transport write
+  /-- `Write(data)` is called and runs up to `c.conn.Write`, where the transport makes it wait
+      (result `wouldBlock`: the call has not returned) — unless it returns before getting there -/
+  | writeStart (data : Bytes)
+  /-- the transport write of the `Write` in flight returns (accepted, refused, or broken by the
+      transport having been closed); the result is that `Write`'s -/
+  | writeEnd
 deriving Repr, DecidableEq
 
 inductive Res
@@ -283,22 +300,59 @@ def write (c : Conn) (data : Bytes) : Conn × Res :=
     | none =>
       if !c.hsDone then (c, .err .internal) else
       if c.cnSent then (c, .err .shutdown) else
+      -- `c.out.Lock()` is held by the Write in flight: this call returns only after that one, with a
+      -- result that depends on how that one ends.  (The code takes the lock before the three tests
+      -- above; a latched `out.err` / `closeNotifySent` cannot change while the lock is held, so when
+      -- one of them is set what the call returns is what is stated above, whenever it returns.)
+      if c.inflight.isSome then (c, .wouldBlock) else
       if data = [] then (c, .ok []) else     -- `writeRecordLocked` writes nothing for an empty slice
       match wErr c with
       | some e => ({ c with outErr := some e }, .err e)
       | none => ({ c with outLog := c.outLog ++ [(P.tApp, data.take 4)] }, .ok [])
+
+/-- `Write(data)` up to the point where `c.conn.Write` makes it wait: the same tests as `write`;
+a call that gets through all of them is in flight (`activeCall += 2`, `c.out` held) -/
+def writeStart (c : Conn) (data : Bytes) : Conn × Res :=
+  if c.closedBit then (c, .err .closed) else
+  match handshake c false with
+  | (c, some e) => (c, .err e)
+  | (c, none) =>
+    match c.outErr with
+    | some e => (c, .err e)
+    | none =>
+      if !c.hsDone then (c, .err .internal) else
+      if c.cnSent then (c, .err .shutdown) else
+      if c.inflight.isSome then (c, .wouldBlock) else
+      if data = [] then (c, .ok []) else
+      ({ c with inflight := some data }, .wouldBlock)
+
+/-- the transport write of the Write in flight returns: `return n, c.out.setErrorLocked(err)`,
+`defer atomic.AddInt32(&c.activeCall, -2)` -/
+def writeEnd (c : Conn) : Conn × Res :=
+  match c.inflight with
+  | none => (c, .event)
+  | some data =>
+    let c := { c with inflight := none }
+    match wErr c with
+    | some e => ({ c with outErr := some e }, .err e)
+    | none => ({ c with outLog := c.outLog ++ [(P.tApp, data.take 4)] }, .ok [])
 
 /-- the part of `Close` between setting the close bit and closing the transport -/
 def closeSend (c : Conn) : Conn × Option ApiErr := if c.hsDone then closeNotify c else (c, none)
 
 def close (c : Conn) : Conn × Res :=
   if c.closedBit then (c, .err .closed) else
+  -- `if x != 0 { return c.conn.Close() }`: a Write is in flight; the close bit has been set by the
+  -- compare-and-swap loop (`x|1`) all the same, no close_notify is attempted
+  if c.inflight.isSome then ({ c with closedBit := true, localClosed := true }, .ok []) else
   let r := closeSend { c with closedBit := true }
   -- "failed to send closeNotify alert (but connection was closed anyway): %w"
   ({ r.1 with localClosed := true }, match r.2 with | some e => .err e | none => .ok [])
 
 def closeWrite (c : Conn) : Conn × Res :=
   if !c.hsDone then (c, .err .earlyCloseWrite) else
+  -- `closeNotify` takes `c.out`, which the Write in flight holds (same remark as in `write`)
+  if c.inflight.isSome && !c.cnSent then (c, .wouldBlock) else
   match closeNotify c with
   | (c, some e) => (c, .err e)
   | (c, none) => (c, .ok [])
@@ -318,6 +372,8 @@ def step (c : Conn) : Call → Conn × Res
     | .record _, some .tempErr => ({ c with queue := c.queue.dropLast ++ [it, .tempErr] }, .event)
     | _, _ => ({ c with queue := c.queue ++ [it] }, .event)
   | .setWFail w => ({ c with wfail := w }, .event)
+  | .writeStart d => writeStart c d
+  | .writeEnd => writeEnd c
 
 def run (c : Conn) : List Call → List Res
   | [] => []
